@@ -329,7 +329,8 @@ CONDITIONS = [
                               [{"mode": 2, "kind": 3, "evil_sig": 1, "loc": 5, "opt": 3}] +
                               [{"mode": 1, "kind": 4, "evil_sig": s, "loc": l, "opt": 0} for (s, l) in ((1, 2), (1, 3), (3, 5))],
                      "thorough": [{"mode": m, "kind": k, "evil_id": 0, "evil_sig": 0, "loc": 0, "strip": False} for m in range(3) for k in (0, 1, 2, 5, 6, 7)] +
-                                 [{"mode": m, "kind": k, "evil_sig": s, "loc": l} for m in range(3) for k in (3, 4) for s in range(5) for l in range(7)]},
+                                 [{"mode": m, "kind": k, "evil_sig": s, "loc": l, "opt": (1, 0, 3)[m]} for m in range(3) for k in (3, 4) for s in range(5) for l in range(7)] +
+                                 [{"mode": m, "kind": k, "evil_sig": 1, "loc": l, "opt": o} for m in range(3) for k in (3, 4) for l in range(7) for o in range(4) if o != (1, 0, 3)[m]]},
          timeout={"quick": 900, "thorough": 2400}, path_timeout=120,
          functions=["client_base.Base.parse_authn_request_response", "entity.Entity._parse_response", "response.AuthnResponse.loads/verify/parse_assertion/_assertion",
                     "sigver.SecurityContext.correctly_signed_response/_check_signature/check_signature/verify_signature",
